@@ -226,6 +226,11 @@ def solve(A, b, **kw):
         x = uf_array('solve', (A, b), b.shape)
         ENG.records.setdefault('solve', []).append((A, b, x))
         return x
+    mkey = ('solve-memo', _term_key((A, b)))
+    if mkey in ENG.uf_memo:
+        x = ENG.uf_memo[mkey][1]
+        ENG.records.setdefault('solve', []).append((A, b, x))
+        return x
     base = ENG.fresh_name('x')
     x = _np.empty(b.shape, dtype=object)
     for idx in _np.ndindex(*b.shape):
@@ -234,6 +239,7 @@ def solve(A, b, **kw):
     for idx in _np.ndindex(*b.shape):
         ENG.axioms.append(core.tob(Ax[idx] == b[idx]))
     x = x.view(SymArray)
+    ENG.uf_memo[mkey] = ((A, b), x)     # a deterministic function: syntactically identical arguments, identical result
     ENG.records.setdefault('solve', []).append((A, b, x))
     return x
 
@@ -279,6 +285,11 @@ def pinv(A, **kw):
         X = uf_array('pinv', (A,), (n, m))
         ENG.records.setdefault('pinv', []).append((A, X))
         return X
+    mkey = ('pinv-memo', _term_key((A,)))
+    if mkey in ENG.uf_memo:
+        X = ENG.uf_memo[mkey][1]
+        ENG.records.setdefault('pinv', []).append((A, X))
+        return X
     base = ENG.fresh_name('pinv')
     X = _np.empty((n, m), dtype=object)
     for i in range(n):
@@ -303,6 +314,7 @@ def pinv(A, **kw):
             ax.append(core.tob(XA[i, j] == XA[j, i]))
     ENG.axioms.extend(ax)
     X = X.view(SymArray)
+    ENG.uf_memo[mkey] = ((A,), X)
     ENG.records.setdefault('pinv', []).append((A, X))
     return X
 
@@ -321,3 +333,41 @@ def det(A):
                 - A[0, 1] * (A[1, 0] * A[2, 2] - A[1, 2] * A[2, 0])
                 + A[0, 2] * (A[1, 0] * A[2, 1] - A[1, 1] * A[2, 0]))
     raise Unsupported('det of %dx%d symbolic matrix' % (n, n))
+
+
+# ---- uniqueness instances (part of the solve / pinv contract) ---------------------------------
+def unique_solve_hint(rec, cand):
+    """scipy.linalg.solve returns THE solution (it raises LinAlgError for a singular matrix), so any candidate that
+    satisfies the recorded system equals the recorded solution.  Adds that implication, instantiated at `cand`."""
+    A, b, x = rec
+    Ac = _np.dot(_obj(A), _obj(cand))
+    prem = [core.tob(Ac[idx] == _obj(b)[idx]) for idx in _np.ndindex(*_obj(b).shape)]
+    concl = [core.tob(_obj(x)[idx] == _obj(cand)[idx]) for idx in _np.ndindex(*_obj(b).shape)]
+    ENG.axioms.append(z3.Implies(z3.And(*prem), z3.And(*concl)))
+
+
+def unique_pinv_hint(rec, cand):
+    """the Moore-Penrose inverse is unique: a candidate satisfying the four equations equals the recorded pinv"""
+    A, X = rec
+    A = _obj(A)
+    C = _obj(cand)
+    m, n = A.shape
+    AC = _np.dot(A, C)
+    CA = _np.dot(C, A)
+    ACA = _np.dot(AC, A)
+    CAC = _np.dot(CA, C)
+    prem = []
+    for i in range(m):
+        for j in range(n):
+            prem.append(core.tob(ACA[i, j] == A[i, j]))
+    for i in range(n):
+        for j in range(m):
+            prem.append(core.tob(CAC[i, j] == C[i, j]))
+    for i in range(m):
+        for j in range(i + 1, m):
+            prem.append(core.tob(AC[i, j] == AC[j, i]))
+    for i in range(n):
+        for j in range(i + 1, n):
+            prem.append(core.tob(CA[i, j] == CA[j, i]))
+    concl = [core.tob(_obj(X)[idx] == C[idx]) for idx in _np.ndindex(*C.shape)]
+    ENG.axioms.append(z3.Implies(z3.And(*prem), z3.And(*concl)))
